@@ -60,7 +60,8 @@ class TreeTensorNetworkState(TreeTensorNetwork):
             float: The norm of the state.
         """
         scal_prod = self.scalar_product()
-        assert scal_prod.imag == 0
+        # The imaginary part vanishes only up to floating point round-off.
+        assert abs(scal_prod.imag) <= 1e-10 * max(1.0, abs(scal_prod.real))
         return sqrt(scal_prod.real)
 
     def normalise(self) -> float:
